@@ -265,6 +265,31 @@ theorem shift_keeps_type_precision_zone (sg : Int) (x y : Val) (v : Dec) (u : Li
         simp [tmpOfTime]
     · simp at h
 
+/-- the bridge keeps the instant: the UTC reading the comparison payload is built from denotes the same
+    instant as the reading in the value's own zone, at offset zero -/
+theorem utcWall_same_instant (w : Wall) : instantNs (utcWall w) = instantNs w ∧ (utcWall w).offset = 0 := by
+  constructor
+  · unfold utcWall
+    rw [addNanos_instant]
+    simp [instantNs, dayNumber, timeOfDayNs]
+    omega
+  · simp [utcWall, addNanos, withTimeOfDay, addDays]
+
+/-- … and back: the reading arithmetic works on, recovered from the payload and the kept offset, denotes
+    the same instant as the reading the payload was built from, in the same zone -/
+theorem zone_roundtrip_same_instant (w : Wall) :
+    instantNs (inZone (utcWall w) w.offset) = instantNs w ∧ (inZone (utcWall w) w.offset).offset = w.offset := by
+  refine ⟨?_, by simp [inZone]⟩
+  have h1 := (utcWall_same_instant w).1
+  have h2 := (utcWall_same_instant w).2
+  have h3 := addNanos_instant (utcWall w) (w.offset * nsPerSec)
+  have h4 : (addNanos (utcWall w) (w.offset * nsPerSec)).offset = 0 := by
+    simp [addNanos, withTimeOfDay, addDays, h2]
+  simp only [inZone, instantNs, dayNumber, timeOfDayNs, nsPerSec, nsPerDay] at *
+  rw [h4] at h3
+  rw [h2] at h3 h1
+  omega
+
 /-- non-vacuity, and the clamping example of the property on the whole pipeline: the source text
     `@2020-01-31 + 1 month` compiles and evaluates to the Date 2020-02-29 -/
 example : (run FP.Gen.FuncTable.baseTable "@2020-01-31 + 1 month" [] []) =
